@@ -69,6 +69,22 @@ def gen_calls(rng, n):
     return calls
 
 
+def exhaustive_calls(polys, start_id):
+    """every polynomial of the TLC-emitted universe through each of the four functions, as a dict and as the native Matrix type"""
+    calls = []
+    native = {"anneal_quso": "QUSOMatrix", "anneal_puso": "PUSOMatrix", "anneal_qubo": "QUBOMatrix", "anneal_pubo": "PUBOMatrix"}
+    for p in polys:
+        for fn in sorted(KINDS):
+            for kind, labs, labels in (("dict", ["L0", "L1"], {"L0": "'a'", "L1": "3"}), (native[fn], [0, 2], {})):
+                m = dict(zip(["L0", "L1"], labs))
+                terms = [[[m[x] for x in k], c] for k, c in p.items()]
+                for sched in ([0.0], [2.0, 0.5, 0.0]):
+                    calls.append({"id": start_id + len(calls), "fn": fn, "kind": kind, "terms": terms, "den": 1, "labels": dict(labels),
+                                  "kwargs": {"schedule": sched, "in_order": len(calls) % 2 == 0, "seed": 7 + len(calls) % 5, "num_anneals": 2},
+                                  "trace": False, "twice": False})
+    return calls
+
+
 def to_record(call, o):
     den = call["den"]
     matrix = call["kind"].endswith("Matrix")
@@ -114,6 +130,12 @@ def run(tier, out, replay=None):
             calls = [json.load(open(replay))["record"]["call"]]
         else:
             calls = gen_calls(rng, 12000 if thorough else 1500)
+            from . import pure
+            polys, udesc = pure.universe("2f" if thorough else "2s", wd)
+            ex = exhaustive_calls(polys, len(calls))
+            calls += ex
+            out.set("exhaustive_universe", udesc)
+            out.set("exhaustive_calls", len(ex))
         rc, stdout, outs = ac.run_driver(calls, so, wd, "c11")
         byid = {o["id"]: o for o in outs}
         recs, kept = [], []
